@@ -21,6 +21,7 @@ EXPLANATION = (
     "0 maps to PRE-OPERATIONAL (127); R6 condition-variable protocol of on_heartbeat / wait_for_heartbeat / "
     "wait_for_bootup and NmtError on the silent path; R9 every state change of the slave reaches its heartbeat payload and the heartbeat starts on the boot-up transition (shared with C17.R3): the state a master reports is the one the heartbeat carries; R8 structural assumptions shared by all properties: no class-level mutable object is mutated in place by instances, no method re-runs the constructor, logging statements cannot raise (typed eager formatting, divisions), no mutable default argument is kept or mutated, no new truth-value test of a None-able number."
     ' R6 also: only on_heartbeat notifies state_update while wait_for_heartbeat waits once.'
+    ' R5 also: the boot-up test does not look at the raw frame byte.'
 )
 ASSUMPTIONS = [
     "not decided: agreement of master and slave views after every prefix of a command history (runtime), thread timing",
